@@ -245,9 +245,10 @@ func c07Configs(quick bool) []ediCfg {
 
 func c07Run(c *core.Ctx) {
 	idx := 0
+	owned := false // set while a whole (a, b) pair has been assigned to this worker
 	try := func(cs c07Case, key string) bool {
 		idx++
-		if !c.Mine(idx) {
+		if !owned && !c.Mine(idx) {
 			return true
 		}
 		c.Begin(func() interface{} { return cs })
@@ -326,8 +327,18 @@ func c07Run(c *core.Ctx) {
 			arrangements = append(arrangements, "two-repetitions")
 		}
 		bufs := []int{4, 8, 128}
+		pidx := 0
 		for _, a := range values {
 			for _, b := range values {
+				if ra, rb := utf8.RuneCountInString(a), utf8.RuneCountInString(b); !c.Quick() && (ra > 2 && rb > 2) {
+					continue // thorough: 3-symbol values are paired with every value of at most two symbols
+				}
+				// a pair and all its arrangements / terminators go to one worker (cases are built only there)
+				pidx++
+				if !c.Mine(pidx + ci) {
+					continue
+				}
+				owned = true
 				for ai, arr := range arrangements {
 					var seg ediSegment
 					var decls []c07Decl
@@ -404,8 +415,10 @@ func c07Run(c *core.Ctx) {
 						}
 					}
 				}
+				owned = false
 			}
 		}
+		owned = false
 		// declarations: missing element with default / empty_if_missing / neither; same element declared twice
 		for _, a := range values {
 			def := "dflt"
